@@ -196,24 +196,31 @@ Definition viol_cstrs (c : con) : list cstr :=
 Lemma sat_cstr_of c st p : sat (cstr_of c st) p <-> if st then 0 < ceval c p else 0 <= ceval c p.
 Proof. unfold sat, cstr_of, eval, ceval; cbn [coefs cst strict]. tauto. Qed.
 
+Lemma sat_viol_neg c st p : sat (neg_c (cstr_of c st)) p <-> if st then ceval c p <= 0 else ceval c p < 0.
+Proof. rewrite sat_neg, sat_cstr_of. destruct st; split; intros; lra. Qed.
+
 Lemma viol_sound c p v : In v (viol_cstrs c) -> sat v p -> ~ sat_con c p.
 Proof.
-  unfold viol_cstrs, sat_con. pose proof (sat_cstr_of c true p) as T. pose proof (sat_cstr_of c false p) as F.
-  cbv beta iota in T, F. destruct (ckd c); cbn [In]; intros H; decompose [or] H; subst v;
-    rewrite ?sat_neg; try contradiction; intros; lra.
+  unfold viol_cstrs, sat_con. intros H S Hc.
+  pose proof (proj1 (sat_cstr_of c true p)) as T. pose proof (proj1 (sat_viol_neg c false p)) as NF.
+  pose proof (proj1 (sat_viol_neg c true p)) as NT. cbv beta iota in T, NF, NT.
+  destruct (ckd c); cbn [In] in H; repeat (destruct H as [<-|H]); try contradiction;
+    first [apply T in S | apply NF in S | apply NT in S]; lra.
 Qed.
 
 Lemma viol_cases c p : sat_con c p \/ exists v, In v (viol_cstrs c) /\ sat v p.
 Proof.
-  unfold viol_cstrs, sat_con. pose proof (sat_cstr_of c true p) as T. pose proof (sat_cstr_of c false p) as F.
-  cbv beta iota in T, F. destruct (ckd c).
+  unfold viol_cstrs, sat_con.
+  pose proof (proj2 (sat_cstr_of c true p)) as T. pose proof (proj2 (sat_viol_neg c false p)) as NF.
+  pose proof (proj2 (sat_viol_neg c true p)) as NT. cbv beta iota in T, NF, NT.
+  destruct (ckd c).
   - destruct (Q_dec (ceval c p) 0) as [[H|H]|H]; [right|right|now left].
-    + exists (neg_c (cstr_of c false)). split; [right; now left|]. apply sat_neg. lra.
-    + exists (cstr_of c true). split; [now left|]. lra.
+    + exists (neg_c (cstr_of c false)). split; [right; now left|]. now apply NF.
+    + exists (cstr_of c true). split; [now left|]. now apply T.
   - destruct (Qlt_le_dec (ceval c p) 0) as [H|H]; [right|now left].
-    exists (neg_c (cstr_of c false)). split; [now left|]. apply sat_neg. lra.
+    exists (neg_c (cstr_of c false)). split; [now left|]. now apply NF.
   - destruct (Qlt_le_dec 0 (ceval c p)) as [H|H]; [now left|right].
-    exists (neg_c (cstr_of c true)). split; [now left|]. apply sat_neg. lra.
+    exists (neg_c (cstr_of c true)). split; [now left|]. now apply NT.
 Qed.
 
 Fixpoint all_none (rs : list ires) : option bool :=
